@@ -6,31 +6,49 @@ CONFIG = dict(
     shrink_lists=[],
     shrink=False,
     level="proof",
-    rule=("MODEL-VS-CODE cases (K, `agree` carries information): children — child seeds = the parent's successive words as predicted by "
-          "the model from the observed parent stream, equal seeds give equal first 64 words, a child's stream equals the stream of a "
-          "generator constructed directly from that word, parent position afterwards; exp — the generator seed observed inside every "
-          "job (problem p, run r) of the real par_experiment (read back from the exported logs) equals the model's jobSeed = r, for "
-          "1-3 problems with different domains x run counts 1-6 x pools 1/2/4/8. EXPLORATION cases (O only; `agree` is vacuously true, "
-          "the predicate is: all digests of the case are equal and belong to completed runs): run-<template> — all 21 templates x 4 "
-          "variants x random instance/iterations/seed (5 repetitions quick, 20 thorough): sequential run, again, cloned configuration, "
-          "Parallel evaluator under rayon pools of 1,2,3,4,8,16 threads with an objective that sleeps a pseudo-random 0-200 us per call "
-          "(alternating original / cloned configuration), the 4-thread pool again, the unwrapped problem type, every 4th case a fresh "
-          "process; gen — generated GA-like configurations; reuse — ONE configuration object run on problem A and then on problem B "
-          "(different dimension/domain), a clone made after that use, a parallel run, each against a pristine configuration on B; "
-          "user-rng — a user-supplied counting generator must be the generator in the final state, must have been drawn from, and must "
-          "reproduce the Random::new(seed) run (sequential and parallel); exp — decoded CBOR log of every (problem, run) file vs. the "
-          "single sequential run seeded with r; pairs — 10^4 pairs of different seeds have different first 64 words. Digest = every "
-          "population of the final stack (solutions + objective bits), best individual, evaluations, iterations, next generator word, "
-          "serialised log. Non-trivial = every case; distinct = distinct input."),
+    rule=("MODEL-VS-CODE cases (K, `agree` carries information): stream — `Random::new(s)` / `Random::with_rng::<B>(s)` for B in "
+          "{ChaCha8, ChaCha12, ChaCha20, StdRng, a counting ChaCha12 wrapper, the transparent counter backend Ctr} walked down a path of "
+          "descendants (depth 0-4, child number 0-3 per level, alternately `iter_children` and `IntoIterator`) and then driven by a draw "
+          "script over all four RngCore methods (next_u64, next_u32, fill_bytes n, try_fill_bytes n, n = 0..20), compared with the SAME "
+          "script on the bare backend seeded through rand's own `seed_from_u64` (for Ctr: computed by the Lean model itself) with the seed "
+          "the descendant reports through config() (WITNESS: how a child's seed is derived from the parent's draw is not demanded), every "
+          "generator on the way must report the backend B; seeds = 20 boundary seeds (0, 1, 2, u64::MAX, 2^32, 2^32 +- 1, 2^63, 2^63 +- 1, well-known "
+          "constants) + random seeds of random bit length; seedmap — the seed that really reaches the backend (first word of "
+          "`Random::with_rng::<Ctr>(s)`) equals s, for all 2^k, 2^k +- 1, the boundary seeds and random seeds; children — every child's stream equals the stream "
+          "of the bare ChaCha12 backend seeded with the seed the child reports (witness), sibling seeds pairwise different and different "
+          "from the parent's seed; exp — the generator seed observed DURING every job (problem p, run r) of the real "
+          "par_experiment (a log trigger reads the state's generator each time the Logger runs; read back from the exported logs) equals the "
+          "model's run-seeded generator, for 1-3 problems with different domains x run counts 1-6 x pools 1/2/4/8; exp-user — par_experiment "
+          "with a `setup` that supplies its own generator (default backend / ChaCha8 / counting wrapper, seed >= 1000): backend and seed "
+          "observed during every job equal the model's jobGenerator (= the supplied one). PROPERTY PREDICATE (O) of these cases: stream — the "
+          "two independently constructed walks agree (determinism at any depth); seedmap — no two DIFFERENT seeds s != e with identical "
+          "streams (class seed-collision, the pair is in the replay); children — deriving twice gives the same children and parent "
+          "positions; exp / exp-user — observed generator = model AND file = single run. "
+          "EXPLORATION cases (O only; `agree` is vacuously true, the predicate is: all digests of the case are equal and belong to "
+          "completed runs): run-<template> — all 21 templates x 4 variants x random instance/iterations/seed, every 5th case a boundary "
+          "seed (5 repetitions quick, 20 thorough): sequential run, again, cloned configuration, the public `Configuration::run` on a "
+          "hand-built state holding the same generator, Parallel evaluator under rayon pools of 1,2,3,4,8,16 threads with an objective "
+          "that sleeps a pseudo-random 0-200 us per call (alternating original / cloned configuration), the 4-thread pool again, the "
+          "unwrapped problem type, every 4th case a fresh process; gen — generated GA-like configurations; reuse — ONE configuration "
+          "object run on problem A and then on problem B (different dimension/domain), a clone made after that use, a parallel run, each "
+          "against a pristine configuration on B; user-rng — a user-supplied counting generator must be the generator in the final state, "
+          "must have been drawn from, and must reproduce the Random::new(seed) run (sequential and parallel); adv-rng — a user generator "
+          "(default backend or ChaCha8) from which k = 0..5 words were already drawn: hand-built state + `run` = optimize_with = cloned "
+          "configuration = parallel, and the final state holds that backend and seed; exp / exp-user — decoded CBOR log of every "
+          "(problem, run) file vs. the single sequential run with the job's generator; pairs — 10^4 pairs of different seeds have "
+          "different first 64 words. Digest = every population of the final stack (solutions + objective bits), best individual, "
+          "evaluations, iterations, next generator word, serialised log. Non-trivial = every case; distinct = distinct input."),
     nontrivial=lambda inp: True,
     trusted_base=[
         "rayon's scheduler, the memory model, cloned trait objects and process boundaries are explored (pool sizes x perturbed timing x clone x reuse x fresh process), not modelled",
-        "ChaCha12 (rand_chacha): 'different seeds give different streams' is an ASSUMPTION (injective constructor, hypothesis of children_pairwise_distinct) explored on 10^4 pairs",
+        "rand_core 0.6.4 / rand_chacha 0.3.1 / rand 0.8.8 `SeedableRng::seed_from_u64` of ChaCha8/12/20 and StdRng is the REFERENCE the stream cases compare `Random` with (the harness links the same crate versions as /repo through Cargo.lock); only the counter backend's stream is computed by the model",
+        "ChaCha12 (rand_chacha): 'different seeds give different streams' is an ASSUMPTION about the backend's seeding (hypothesis hinj of different_seeds_different_streams / children_pairwise_distinct; a theorem only for the counter backend) explored on 10^4 pairs",
         "problem.objective(&self, ..) is a pure function of the solution and the evaluators ignore the State they are handed (read off src/problems/evaluate.rs; not enforced by the types)",
         "FNV-1a 64-bit digests of canonical state strings (a collision could hide a difference)",
-        "the wrapper problem J<P> delegates every trait to the wrapped problem and only adds the delay (checked: unwrapped digest equals wrapped digest)"],
+        "the wrapper problem J<P> delegates every trait to the wrapped problem and only adds the delay (checked: unwrapped digest equals wrapped digest)",
+        "the generator identity inside par_experiment jobs is observed through a log trigger at the first Logger execution of the run (the templates used have a Logger in their main loop)"],
     assumptions=["SplitMix64-seeded generators", "thread::sleep granularity suffices to reorder completion",
-                 "constructor injectivity (hinj) for the different-seeds clause"],
+                 "backend seeding injective on 64-bit seeds (hinj) for the different-seeds clause with the ChaCha backends"],
     timeout_quick=900,
 )
 CONFIG.update(
@@ -39,14 +57,27 @@ CONFIG.update(
                 "only the order of objective calls differs (evalPar_eq_evalSeq, eval_calls_perm); runs of a step language whose steps draw "
                 "from the generator between evaluations, push/merge populations, update best and log end in the same populations x "
                 "generator position x evaluations x best x log for all legal schedules (run_schedule_independent); optimize_with runs on "
-                "the supplied generator whatever the default is (user_generator_decides_run); child generators are the parent's successive "
-                "words through the constructor (children_deterministic; pairwise distinct RELATIVE to an injective constructor); the "
-                "experiment's file (p, r) is the single run of p seeded with r for every run count, problem count and job order "
-                "(experiment_seed_independent); any order of a step's exported entries denotes the same map. The property itself (real "
-                "scheduler, rayon, cloned trait objects, reuse of a configuration object, process boundaries) is DECIDED BY EXPLORATION: "
-                "digests of complete final states. No theorem for the cloning clause (the model has no component state to copy)."),
-    level_note=("partial: only the `children` and `exp` (seed) cases compare a model prediction with the code; for all digest cases `agree` "
-                "is vacuous and the verdict is the exploration predicate 'all digests equal'. The step language is a small model, not the "
-                "component interpreter of /repo; it is not executed against the code. rayon's real interleavings, the memory model and "
-                "ChaCha's stream quality are outside the model."),
+                "the supplied generator whatever the default is (user_generator_decides_run) and so does every par_experiment job whose "
+                "`setup` supplies one, otherwise the job draws from Random::new(run) (experiment_user_generator_kept); `Random` is a "
+                "transparent wrapper: any script of next_u64/next_u32/fill_bytes/try_fill_bytes on with_rng::<B>(seed) answers like the "
+                "backend seeded with exactly `seed`, the seed config() reports (random_is_backend); hence different 64-bit seeds give "
+                "different streams GIVEN an injectively seeded backend (different_seeds_different_streams; no assumption for the counter "
+                "backend: ctr_different_seeds); the descendant along any path of child numbers, at any depth, for every seed derivation d, is the "
+                "pristine generator of the same backend with a seed computed on the backend alone, which is the last seed reported on the "
+                "way down (descendant_deterministic); child generators are the parent's "
+                "successive words through the constructor, for EVERY seed derivation d (children_deterministic; pairwise distinct RELATIVE to "
+                "an injective constructor and an injective d); "
+                "the experiment's file (p, r) is the single run of p seeded with r for every run count, problem count and job order "
+                "(experiment_seed_independent); any order of a step's exported entries denotes the same map. The generator theorems are "
+                "tied to the code by the stream / seedmap / children / exp / exp-user cases (model prediction or rand's own seeding vs. the "
+                "real `Random`). The run-level property itself (real scheduler, rayon, cloned trait objects, reuse of a configuration "
+                "object, process boundaries) is DECIDED BY EXPLORATION: digests of complete final states. No theorem for the cloning clause "
+                "(the model has no component state to copy)."),
+    level_note=("partial: the `stream`, `seedmap`, `children`, `exp` and `exp-user` cases compare a model prediction (or rand's own seeding of "
+                "the backend, trusted) with the code; for all digest cases `agree` is vacuous and the verdict is the exploration predicate "
+                "'all digests equal'. The step language is a small model, not the component interpreter of /repo; it is not executed "
+                "against the code. rayon's real interleavings, the memory model and ChaCha's stream quality are outside the model. A remap "
+                "of the user's seed that is a bijection, or one confined to `Random::new`, or children built with another backend / with colliding seeds, is "
+                "reported as a correspondence failure (K) with the concrete seed, not as a property violation; a remap that makes two seeds "
+                "collide through `with_rng` is a property violation with the pair."),
 )
